@@ -1,11 +1,13 @@
 /-
   C13 — serving a request never changes what any other request returns.
-  Property statements only; helper lemmas are in `Proofs/Sched.lean`, `Proofs/HandlerSteps.lean`.
+  Property statements only; helper lemmas are in `Proofs/Sched.lean`, `Proofs/HandlerSteps.lean`,
+  `Proofs/HandlerDiscipline.lean`.
 -/
 import PydapModel.Sched
 import PydapModel.HandlerSteps
 import Proofs.Sched
 import Proofs.HandlerSteps
+import Proofs.HandlerDiscipline
 namespace Pydap.C13
 open Pydap Pydap.Sched
 
@@ -84,10 +86,47 @@ theorem C13_copy_discipline (t : Nat) (ds : Node) :
     dataRefs (copyNode t "copy" ds).1 = dataRefs ds :=
   ⟨copy_writes_owned t "copy" ds, copy_priv t "copy" ds, copy_shares_data t "copy" ds⟩
 
-/-- **The handler under any schedule.**  Requests `reqs t` served concurrently by threads `t` against the
-    dataset `ds`: when the programs pass the ownership audit, any schedule gives every request the outputs of
-    its solo run and leaves every object of the served dataset (`own = none`) as it was. -/
-theorem C13_handler_noninterference (ds : Node) (reqs : Nat → Req) (h0 : Heap Ref Val)
+/-- **The handler model satisfies the discipline — for every dataset tree and every request.**
+    `Served ds`: every object, attribute dict and data object of the served dataset is shared (`own = none`).
+    Then for every thread `t` and every request: every store of every stage of the pipeline (copy, selection,
+    wrap, projection, ssf re-projection) goes to an object allocated by `t` and reads only objects of `t` or shared
+    ones; what response construction reads is `t`'s or shared; the thread program passes the executable audit;
+    hence the family of programs is `Disciplined`.  No per-case audit is needed any more. -/
+theorem C13_handler_discipline (ds : Node) (hs : Served ds) (reqs : Nat → Req) :
+    (∀ t, ∀ e ∈ (pipeline t ds (reqs t)).2,
+        e.target.own = some t ∧ ∀ x ∈ e.reads, x.own = some t ∨ x.own = none) ∧
+    (∀ t, ∀ x ∈ allRefs (pipeline t ds (reqs t)).1, x.own = some t ∨ x.own = none) ∧
+    (∀ t, auditProg t (program ds t (reqs t)) = true) ∧
+    Disciplined Ref.own (fun t => program ds t (reqs t)) :=
+  ⟨fun t e he => ⟨pipeline_writes_owned ds hs t (reqs t) e he, pipeline_reads_ok ds hs t (reqs t) e he⟩,
+   fun t => pipeline_out_reads_ok ds hs t (reqs t),
+   fun t => program_audit ds hs t (reqs t),
+   audit_sound _ (fun t => program_audit ds hs t (reqs t))⟩
+
+/-- **The handler under any schedule.**  Requests `reqs t` served concurrently by threads `t` against any served
+    dataset `ds`: any schedule gives every request that it lets finish the outputs of its solo run, and leaves
+    every object of the served dataset (`own = none`) as it was. -/
+theorem C13_handler_noninterference (ds : Node) (hs : Served ds) (reqs : Nat → Req) (h0 : Heap Ref Val)
+    (σ : List Nat) :
+    (∀ t, (program ds t (reqs t)).length ≤ σ.count t →
+      ((run (init h0 (fun t => program ds t (reqs t))) σ).th t).outs = (solo h0 (program ds t (reqs t))).2.outs) ∧
+    (∀ l : Ref, l.own = none → (run (init h0 (fun t => program ds t (reqs t))) σ).heap l = h0 l) := by
+  have hD := (C13_handler_discipline ds hs reqs).2.2.2
+  exact ⟨fun t ht => (C13_complete_outputs Ref.own _ h0 hD σ t ht).1,
+         (C13_noninterference Ref.own _ h0 hD σ).2.2.2⟩
+
+/-- **The handler under any history.**  The requests of `order` served one after the other against one served
+    dataset, in any order and with any repetitions of thread ids: each response is that of the request served
+    alone on the initial dataset. -/
+theorem C13_handler_history (ds : Node) (hs : Served ds) (reqs : Nat → Req) (h0 : Heap Ref Val)
+    (order : List Nat) (t : Nat) (ht : t ∈ order) :
+    ((run (init h0 (fun t => program ds t (reqs t))) (seqSchedule (fun t => program ds t (reqs t)) order)).th t).outs
+      = (solo h0 (program ds t (reqs t))).2.outs :=
+  C13_history Ref.own _ h0 (C13_handler_discipline ds hs reqs).2.2.2 order t ht
+
+/-- the earlier form, for programs checked case by case by the executable audit (kept: it also covers dataset
+    trees that are not `Served`, e.g. with data objects owned by the requesting thread) -/
+theorem C13_handler_noninterference_audited (ds : Node) (reqs : Nat → Req) (h0 : Heap Ref Val)
     (haudit : ∀ t, auditProg t (program ds t (reqs t)) = true) (σ : List Nat) :
     (∀ t, (program ds t (reqs t)).length ≤ σ.count t →
       ((run (init h0 (fun t => program ds t (reqs t))) σ).th t).outs = (solo h0 (program ds t (reqs t))).2.outs) ∧
@@ -111,6 +150,18 @@ def exDs : Node :=
 def exReqs : Nat → Req
   | 0 => ⟨[[("s", false), ("i", false)]], ["s"], false, []⟩
   | _ => ⟨[[("a", true)]], [], false, []⟩
+
+/-- the example dataset is `Served` (so the universally quantified theorems apply to it) … -/
+example : Served exDs := by
+  intro x hx
+  simp [exDs, allRefs, allRefsKids] at hx
+  rcases hx with h | h | h | h | h | h | h | h | h | h | h | h | h | h | h <;> subst h <;> rfl
+
+/-- … and a tree with an object owned by some request is not -/
+example : ¬ Served (.base ⟨some 3, "x", "a"⟩ ⟨none, "served-attrs", "a"⟩ ⟨none, "served-data", "a"⟩ "a" true) := by
+  intro h
+  have := h ⟨some 3, "x", "a"⟩ (by simp [allRefs])
+  cases this
 
 /-- the two example requests produce real programs (hundreds of stores) that pass the audit -/
 example : auditProg 0 (program exDs 0 (exReqs 0)) = true ∧ auditProg 1 (program exDs 1 (exReqs 1)) = true ∧
